@@ -584,7 +584,10 @@ class SpectralDensity(DFunction, UnitsManaged):
         """Creates a copy of the current correlation function
 
         """
-        return SpectralDensity(self.axis, self.params)
+        # stored parameters are in internal units
+        with energy_units("int"):
+            sd = SpectralDensity(self.axis, self.params)
+        return sd
 
 
     def get_CorrelationFunction(self, temperature=None, ta=None):
